@@ -99,6 +99,13 @@ func c08Spec(c c08Case) idp.ResponseSpec {
 		a.AttrStatements = [][]idp.AttrSpec{{{Name: "dup-values", Values: []string{"x", "x", ""}}}}
 	case 4:
 		a.AttrStatements = [][]idp.AttrSpec{{{Name: "urn:oid:0.9.2342.19200300.100.1.1", FriendlyName: "uid", Values: []string{"alice"}}, {Name: "uid", FriendlyName: "urn:oid:0.9.2342.19200300.100.1.1", Values: []string{"not-alice"}}}}
+	case 5:
+		// the same Name on two Attribute elements (distinguished by NameFormat), and once more
+		a.AttrStatements = [][]idp.AttrSpec{{
+			{Name: "role", NameFormat: "urn:oasis:names:tc:SAML:2.0:attrname-format:basic", Values: []string{"admin", "dev"}},
+			{Name: "other", Values: []string{"o"}},
+			{Name: "role", NameFormat: "urn:oasis:names:tc:SAML:2.0:attrname-format:uri", FriendlyName: "Role", Values: []string{"guest"}},
+		}}
 	}
 	if len(a.AttrStatements[0]) > 0 && len(a.AttrStatements[0][0].Values) > 0 {
 		a.AttrStatements[0][0].Values[0] = c08Values[c.AttrVal]
@@ -263,18 +270,44 @@ func c08Exec(c c08Case) (keys []string, detail, class string) {
 	if len(info.Assertions) != len(want.Assertions) {
 		keys = append(keys, "C08/summary/assertion-list-differs")
 	}
-	if len(info.Values) != len(first.Attrs) {
+	// the summary map is keyed by Name: for a name the IdP used on several Attribute elements it
+	// holds one of them (whole), never a blend and never something unsigned
+	byName := map[string][]int{}
+	for i, at := range first.Attrs {
+		byName[at.Name] = append(byName[at.Name], i)
+	}
+	if len(info.Values) != len(byName) {
 		keys = append(keys, "C08/summary/attribute-count-differs")
 	}
-	for _, at := range first.Attrs {
-		v, ok := info.Values[at.Name]
+	for name, idxs := range byName {
+		v, ok := info.Values[name]
 		if !ok {
 			keys = append(keys, "C08/summary/attribute-missing")
 			continue
 		}
-		if v.FriendlyName != at.Friendly || v.NameFormat != at.Format {
-			keys = append(keys, "C08/summary/attribute-metadata-differs")
+		got := make([]string, 0, len(v.Values))
+		for _, x := range v.Values {
+			got = append(got, x.Value)
 		}
+		match := -1
+		for _, i := range idxs {
+			at := first.Attrs[i]
+			if v.FriendlyName == at.Friendly && v.NameFormat == at.Format && sameList(got, at.Values) {
+				match = i
+			}
+		}
+		if match < 0 {
+			at := first.Attrs[idxs[0]]
+			if v.FriendlyName != at.Friendly || v.NameFormat != at.Format {
+				keys = append(keys, "C08/summary/attribute-metadata-differs")
+			}
+			if !sameList(got, at.Values) {
+				keys = append(keys, "C08/summary/attribute-values-differ")
+				detail += fmt.Sprintf(" | Values[%q]=%q want %q", name, got, at.Values)
+			}
+			match = idxs[0]
+		}
+		at := first.Attrs[match]
 		// accessors
 		all := info.Values.GetAll(at.Name)
 		if !sameList(all, at.Values) {
@@ -394,7 +427,7 @@ func c08Gen(ch *mc.Chooser) c08Case {
 	c.Comments = ch.Choose("comments", 5)
 	c.N = 1 + ch.Choose("n", 3)
 	c.TwoStmts = ch.Bool("two-statements")
-	c.AttrShape = ch.Choose("attr-shape", 5)
+	c.AttrShape = ch.Choose("attr-shape", 6)
 	c.Authn = ch.Choose("authn", 6)
 	c.NoInResp = ch.Bool("no-inresponseto")
 	c.NameID = ch.Choose("nameid", len(c08Values))
@@ -471,7 +504,7 @@ func c08Cases(r *mc.Run) []c08Case {
 }
 
 func c08Run(r *mc.Run) {
-	r.Rule = "full product signing placement(3) x signature method(4) x digest(4) x canonicaliser(6) on the default document, plus the full product (placement both) Response canonicaliser(6) x assertion canonicaliser(same + 6) x signed comments(3) x 1-2 assertions x which assertions carry their own signature(3) x InclusiveNamespaces list(2), plus every combination of <=2 (quick) / <=3 (thorough) deviations over 30 layout/content dimensions (placement, c14n, a different assertion c14n, partially signed assertions, 4 prefix styles, pretty-printing, DEFLATE, 11 lexical re-layouts, comments in signed text, 1-3 assertions, two AttributeStatements, 5 attribute shapes, 6 AuthnStatement shapes, InResponseTo, 12 NameID strings, 12 attribute-value strings, 7 attribute-valued strings, InclusiveNamespaces prefix list, base64 of digest/signature/certificate wrapped at 64 columns); each lexical re-layout is machine-checked to preserve the parse; non-trivial = accepted and compared field-for-field with the generating spec; distinct = distinct case"
+	r.Rule = "full product signing placement(3) x signature method(4) x digest(4) x canonicaliser(6) on the default document, plus the full product (placement both) Response canonicaliser(6) x assertion canonicaliser(same + 6) x signed comments(3) x 1-2 assertions x which assertions carry their own signature(3) x InclusiveNamespaces list(2), plus every combination of <=2 (quick) / <=3 (thorough) deviations over 30 layout/content dimensions (placement, c14n, a different assertion c14n, partially signed assertions, 4 prefix styles, pretty-printing, DEFLATE, 11 lexical re-layouts, comments in signed text, 1-3 assertions, two AttributeStatements, 6 attribute shapes (incl. one Name on several Attribute elements), 6 AuthnStatement shapes, InResponseTo, 12 NameID strings, 12 attribute-value strings, 7 attribute-valued strings, InclusiveNamespaces prefix list, base64 of digest/signature/certificate wrapped at 64 columns); each lexical re-layout is machine-checked to preserve the parse; non-trivial = accepted and compared field-for-field with the generating spec; distinct = distinct case"
 	r.Assume("goxmldsig canonicalisers used by the harness signer", "etree parser/canonical writer as harness DOM", "sizes stay below goxmldsig's 1000-element traversal cap")
 	cases := c08Cases(r)
 	r.State(len(cases))
